@@ -5,6 +5,7 @@ import (
 	"fmt"
 	"reflect"
 	"regexp"
+	"sort"
 	"sync"
 
 	"github.com/graphql-go/graphql/language/ast"
@@ -536,7 +537,14 @@ func defineFieldMap(ttype Named, fieldMap Fields) (FieldDefinitionMap, error) {
 		}
 
 		fieldDef.Args = []*Argument{}
-		for argName, arg := range field.Args {
+		// in name order: the argument list is user visible (introspection)
+		argNames := make([]string, 0, len(field.Args))
+		for argName := range field.Args {
+			argNames = append(argNames, argName)
+		}
+		sort.Strings(argNames)
+		for _, argName := range argNames {
+			arg := field.Args[argName]
 			if err = assertValidName(argName); err != nil {
 				return resultFieldMap, err
 			}
@@ -978,7 +986,14 @@ func (gt *Enum) defineEnumValues(valueMap EnumValueConfigMap) ([]*EnumValueDefin
 		return values, err
 	}
 
-	for valueName, valueConfig := range valueMap {
+	// in name order: the value list is user visible (introspection)
+	valueNames := make([]string, 0, len(valueMap))
+	for valueName := range valueMap {
+		valueNames = append(valueNames, valueName)
+	}
+	sort.Strings(valueNames)
+	for _, valueName := range valueNames {
+		valueConfig := valueMap[valueName]
 		if err = invariantf(
 			valueConfig != nil,
 			`%v.%v must refer to an object with a "value" key `+
